@@ -34,12 +34,35 @@ function baseProgram (rng, files) {
   return genProgram(rng.fork('g'), { strict: rng.bool(), maxStmts: 20 }).code
 }
 
-function genRequest (rng, files) {
-  const kind = rng.weighted([[5, 'mutated'], [1.5, 'random-text'], [1, 'valid'], [1, 'deep'], [3, 'map-ref'], [0.5, 'big']])
+// inputs whose CONTENT or SIZE is unusual (valid programs): bytes at slicing boundaries, lengths at bounds, many items
+function contentSizeProgram (rng, small) {
+  const k = rng.int(14)
+  const big = (arr) => small ? arr[0] : rng.pick(arr)
+  const mb = ['é', '€', '😀', 'a', '\u0000', '\uFEFF', '\u200b', 'ﬃ']
+  const lit = (bytes) => { let s = ''; let n = 0; while (n < bytes) { const c = rng.pick(mb); const b = Buffer.byteLength(c); if (n + b > bytes) { s += 'a'; n++ } else { s += c; n += b } } return JSON.stringify(s) }
+  if (k === 0) return `function f(a) { return a + ${[9, 10, 11, 12, 255, 256, 257, 258, 1024, small ? 2000 : 20000].map(n => lit(n)).join(' + ')} }`
+  if (k === 1) return `function f(a) { const s = '\\ud800' + a + '\\udc00\\ud800' + "\\u{10FFFF}" + '\\0' + a.trim(); return s }`
+  if (k === 2) return 'function f(a) { return ' + Array.from({ length: big([257, 255, 256, 300, 600]) }, (_, i) => `a.m${i}()`).join(' + ') + ' }' // hundreds of temporaries in one statement
+  if (k === 3) return 'function f(a) {\n' + Array.from({ length: big([256, 1000, 2000]) }, (_, i) => `  const l${i} = 'literal number ${i} is long enough';`).join('\n') + '\n  return a + l0\n}' // many literals
+  if (k === 4) return 'function f(a) {\n' + Array.from({ length: big([300, 1200]) }, (_, i) => `  a += a.trim() + \`\${a}${i}\`;`).join('\n') + '\n  return a\n}' // many hook sites
+  if (k === 5) return `function f(a) { return a + '${'x'.repeat(big([65536, 65535, 100000]))}' }` // very long line
+  if (k === 6) return `function ${'ident' + 'x'.repeat(big([256, 255, 1000, 20000]))}(a) { return a + 1 }`
+  if (k === 7) return `// ${lit(300)}\n/* ${'é'.repeat(200)} \u0000 */\nfunction f(a) { return a + /[é€😀]/u.source + \`é\${a}😀\` }`
+  if (k === 8) return 'function f(a) { return a + "x" }\r// lone CR above\r\nfunction g(b) { return b.trim() }\u2028var z = 1'
+  if (k === 9) return `function f(a) { return a${' + a'.repeat(big([300, 500, 1500]))} }` // long flat sum (left-nested binary)
+  if (k === 10) return `function f(a) { return \`${'${a}'.repeat(big([256, 255, 600]))}\` }`
+  if (k === 11) return `function f(a) { return a.concat(${Array.from({ length: big([256, 255, 800]) }, (_, i) => 'a' + (i % 7 ? '' : '()')).join(', ')}) }`
+  if (k === 12) return `function f(a) { return ${'('.repeat(40)}a + 1${')'.repeat(40)} + ${'['.repeat(40)}a${']'.repeat(40)} }`
+  return `function f(a) { 'use strict'; return a + ${lit(11)} }\n//# sourceMappingURL=${'m'.repeat(rng.pick([1, 300, 5000]))}.map`
+}
+
+function genRequest (rng, files, small) {
+  const kind = rng.weighted([[5, 'mutated'], [1.5, 'random-text'], [1, 'valid'], [1, 'deep'], [3, 'map-ref'], [0.5, 'big'], [0.8, 'content-size']])
   let code
   if (kind === 'mutated') code = G.mutate(baseProgram(rng, files), rng)
   else if (kind === 'random-text') code = G.randomText(rng)
   else if (kind === 'deep') code = G.deepNesting(rng)
+  else if (kind === 'content-size') code = contentSizeProgram(rng, small)
   else if (kind === 'big') code = ('function f' + rng.int(9) + '(a, b) { return a + b.trim() + `${a}` }\n').repeat(rng.pick([500, 2000]))
   else code = baseProgram(rng, files)
   let file = rng.bool(0.35) ? rng.pick(G.FILE_NAMES) : '/srv/app/lib/mod' + rng.int(50) + '.js'
@@ -158,7 +181,7 @@ module.exports = {
     if (spec.catalog) {
       const pls = ctx.tier === 'thorough' ? cat.PLACEMENTS : rng.sample(cat.PLACEMENTS, 3).concat(cat.PLACEMENTS.filter(p => p.id === 'return'))
       for (const fm of cat.FORMS) for (const pl of pls) if (cat.compatible(pl, fm)) reqs.push({ code: cat.build(pl, fm, { strict: rng.bool() }).code, file: '/srv/app/catalog.js', meta: { kind: 'catalog:' + pl.id + ':' + fm.id }, config: configs(rng) })
-    } else for (let i = 0; i < spec.count; i++) reqs.push(genRequest(rng.fork(i), files))
+    } else for (let i = 0; i < spec.count; i++) reqs.push(genRequest(rng.fork(i), files, spec.profile !== 'release'))
     const rep = { evaluations: 0, distinct: [], violations: [], inconclusive: [], samples: [], counters: {}, sets: { error_kinds: [], debug_only_third_party_panics: [], reader_outcomes: [], file_name_shapes: [] } }
     const bump = (k, n = 1) => { rep.counters[k] = (rep.counters[k] || 0) + n }
     let hopts = { profile: spec.profile }
